@@ -12,11 +12,11 @@ import (
 )
 
 var c07Contexts = [][2]string{
-	{"print 1 ", " 2"},         // between tokens / operators
-	{"print \"a", "b\""},       // inside a string literal
-	{"# c", "\nprint 1"},       // inside a comment
+	{"print 1 ", " 2"},           // between tokens / operators
+	{"print \"a", "b\""},         // inside a string literal
+	{"# c", "\nprint 1"},         // inside a comment
 	{"var ab = 1\nprint ab", ""}, // identifier tail
-	{"print 1", "2"},           // glued to numbers: two-character operators, floats
+	{"print 1", "2"},             // glued to numbers: two-character operators, floats
 }
 
 type c07Outcome struct {
@@ -142,5 +142,38 @@ func C07_Page() {
 	w := c07Whole(src)
 	f := c07File(&symio.File{Data: src, FileName: "file"})
 	verif.Observe("reads", f.Log == w.Log)
+	c07Compare(w, f)
+}
+
+// c07Glued: places where the lexer has just emitted a token without looking
+// ahead (punctuation, a completed two-character operator, start of input).
+var c07Glued = [][2]string{
+	{"", "print 1"},
+	{"print (", "1)"},
+	{"print 1 ==", "2"},
+	{"def t {", "}"},
+	{"print 1 +", "2"},
+	{"print 1;", "print 2"},
+	{"def t \"x\"", "{}"},
+}
+
+// C07_Glued: two arbitrary bytes (every two-byte character) directly after a
+// token that needed no look-ahead, with the read boundary between them.
+func C07_Glued() {
+	nctx := 4
+	if verif.Tier() == 1 {
+		nctx = len(c07Glued)
+	}
+	ctx := verif.Choice("context", nctx)
+	pl := verif.Bytes("payload", 2)
+	pre, suf := c07Glued[ctx][0], c07Glued[ctx][1]
+	src := append(append([]byte(pre), pl...), suf...)
+	k := len(pre) + 1
+	mode := 0
+	if verif.Tier() == 1 {
+		mode = verif.Choice("mode", 3)
+	}
+	w := c07Whole(src)
+	f := c07File(&symio.File{Data: src, Script: c07Script(k, mode), FileName: "file"})
 	c07Compare(w, f)
 }
